@@ -9,8 +9,10 @@ pub fn edit_distance_min_alloc(
     previous_row: &mut Vec<u8>,
     current_row: &mut Vec<u8>,
 ) -> u8 {
-    if cfg!(debug_assertions) {
-        assert!(source.len() <= 255 && target.len() <= 255);
+    // Lengths and distances are kept in `u8` rows: longer inputs do not fit, and
+    // neither does their distance, so report the largest distance there is.
+    if source.len() > 255 || target.len() > 255 {
+        return u8::MAX;
     }
 
     let row_width = source.len();
